@@ -70,7 +70,12 @@ func (g graph) install(a *ap.App) {
 				d = n.doc
 			}
 			a.PutRemote(id, d)
-			if n.stored != "" {
+			if n.stored != "" && n.stored != id+"/inbox" {
+				if a.SharedInbox == nil {
+					a.SharedInbox = map[string]string{}
+				}
+				a.SharedInbox[id] = n.stored
+			} else if n.stored != "" {
 				a.StoredInbox[id] = true
 			} else {
 				delete(a.StoredInbox, id)
@@ -255,6 +260,7 @@ type c02case struct {
 	limit        int
 	entry        string // Send | PostOutbox
 	senderStored bool   // the application also answers InboxForActor for the sender itself
+	shared       int    // shared-inbox family: 1 = Carol+Erin share a stored inbox, 2 = Dave+Frank+Carol do, 3 = Carol+Erin publish the same inbox
 }
 
 func (c c02case) String() string {
@@ -275,6 +281,9 @@ func (c c02case) String() string {
 	}
 	if c.senderStored {
 		ss += " sender-inbox-stored"
+	}
+	if c.shared > 0 {
+		ss += " " + []string{"", "carol+erin-share-a-stored-inbox", "dave+frank+carol-share-a-stored-inbox", "carol+erin-publish-one-inbox"}[c.shared]
 	}
 	return fmt.Sprintf("%s placement=%d entries=[%s] K1=[%s] limit=%d%s", c.entry, c.placement, strings.Join(es, " "), strings.Join(k, " "), c.limit, ss)
 }
@@ -420,6 +429,19 @@ func C02(tier string) int {
 				c02case{entries: es, placement: 0, k1: []string{Erin, Dave}, limit: 1, entry: "PostOutbox"})
 		}
 	}
+	// shared inboxes: several actors for which the application knows (or which publish) ONE inbox; every
+	// addressing sequence of length 2-4 over the reduced alphabet
+	for _, es := range seqs(long, 4) {
+		if len(es) < 2 {
+			continue
+		}
+		for sh := 1; sh <= 3; sh++ {
+			if len(es) == 4 && sh == 3 {
+				continue
+			}
+			cases = append(cases, c02case{entries: es, placement: 0, k1: []string{Erin, Carol}, limit: 2, entry: "Send", shared: sh})
+		}
+	}
 	// collection document shapes: each of the four collection types, with its items member absent (the
 	// usual paged collection: totalItems + first), an empty array, one or two members; addressed
 	// directly before / after a plain actor, or reached as the only member of K1
@@ -459,7 +481,7 @@ func C02(tier string) int {
 		}
 		cases = append(cases, c02case{entries: []c02entry{sp, {id: Erin}}, placement: 1, k1: []string{Carol, gK2}, limit: 2, entry: "PostOutbox"})
 	}
-	res.Rule = fmt.Sprintf("federation graphs over {dereferencable actor, embedded actor, actor with stored inbox (remote inbox differing), actor with stored = remote inbox, missing, garbled, unknown-type, Collection K1 with every member sequence of length <= %d over 8 nodes and six member sequences of length 3-4, OrderedCollection K2 = [actor, K1], page P1 = [actor, P1, K2] (cycles), Public in both IRI spellings, the sender (named directly or as a member; with and without an inbox of its own stored by the application)}; plus every addressing sequence of length 3-4 over {plain actor, two actors with an application-stored inbox, collection, unreachable actor, sender}; plus an actor-document family (the remote actor published as Service / Group / Organization / Application, with two types (known or unknown first), with its inbox spelled as an embedded OrderedCollection / page, with a sharedInbox endpoint, with a public key under the security context, Mastodon-like with extension terms, with unknown and near-miss members, under an aliased context); plus a collection-shape family (each of Collection / OrderedCollection / CollectionPage / OrderedCollectionPage with its items member absent (totalItems + first only), empty, one, two, three or four (one repeated) members; addressed directly, next to actors, or reached through K1) and a reference-spelling family (an entry written as an embedded Mention with href only, or as an embedded Link with id and a decoy href, alone and paired with every alphabet entry); every ordered sequence of <= %d addressed entries over that 15-entry alphabet, placed in 'to' only / spread over to,bto,cc,bcc,audience / reversed; depth limit %v; entry points Send and client POST; %d runs; plus all two-delivery histories through one actor instance over 2 senders x 5 addressees (first) x 25 addressee pairs (second); oracle: an independent recursive function over the graph description gives the expected inbox set and the IRIs that may be dereferenced; non-trivial = runs in which something was dereferenced or delivered, distinct by (entries, placement, K1, limit)", map[bool]int{false: 1, true: 2}[res.Thorough()], maxEntries, limits, len(cases))
+	res.Rule = fmt.Sprintf("federation graphs over {dereferencable actor, embedded actor, actor with stored inbox (remote inbox differing), actor with stored = remote inbox, missing, garbled, unknown-type, Collection K1 with every member sequence of length <= %d over 8 nodes and six member sequences of length 3-4, OrderedCollection K2 = [actor, K1], page P1 = [actor, P1, K2] (cycles), Public in both IRI spellings, the sender (named directly or as a member; with and without an inbox of its own stored by the application)}; plus every addressing sequence of length 3-4 over {plain actor, two actors with an application-stored inbox, collection, unreachable actor, sender}; plus an actor-document family (the remote actor published as Service / Group / Organization / Application, with two types (known or unknown first), with its inbox spelled as an embedded OrderedCollection / page, with a sharedInbox endpoint, with a public key under the security context, Mastodon-like with extension terms, with unknown and near-miss members, under an aliased context); plus a shared-inbox family (two or three actors for which the application knows one shared inbox, or that publish the same inbox, in every addressing sequence of length 2-4 over the reduced alphabet); plus a collection-shape family (each of Collection / OrderedCollection / CollectionPage / OrderedCollectionPage with its items member absent (totalItems + first only), empty, one, two, three or four (one repeated) members; addressed directly, next to actors, or reached through K1) and a reference-spelling family (an entry written as an embedded Mention with href only, or as an embedded Link with id and a decoy href, alone and paired with every alphabet entry); every ordered sequence of <= %d addressed entries over that 15-entry alphabet, placed in 'to' only / spread over to,bto,cc,bcc,audience / reversed; depth limit %v; entry points Send and client POST; %d runs; plus all two-delivery histories through one actor instance over 2 senders x 5 addressees (first) x 25 addressee pairs (second); oracle: an independent recursive function over the graph description gives the expected inbox set and the IRIs that may be dereferenced; non-trivial = runs in which something was dereferenced or delivered, distinct by (entries, placement, K1, limit)", map[bool]int{false: 1, true: 2}[res.Thorough()], maxEntries, limits, len(cases))
 	res.Assumptions = []string{"order of recipients and how often one IRI is dereferenced are not asserted",
 		"documents that decode to a known non-actor type or to an actor without inbox are outside the alphabet (the statement is silent; C11 covers crashes)",
 		"the stored inbox is consulted for directly addressed actors only, as the code does; collection members with a stored inbox have stored == remote inbox"}
@@ -501,6 +523,14 @@ func C02(tier string) int {
 			}
 			if c.senderStored {
 				g[Alice].stored = Alice + "/inbox"
+			}
+			switch c.shared {
+			case 1:
+				g[Carol].stored, g[Erin].stored = "https://r1.example/shared/inbox", "https://r1.example/shared/inbox"
+			case 2:
+				g[Dave].stored, g[Frank].stored, g[Carol].stored = "https://r1.example/shared/inbox", "https://r1.example/shared/inbox", "https://r1.example/shared/inbox"
+			case 3:
+				g[Carol].inbox, g[Erin].inbox = "https://r1.example/shared/inbox", "https://r1.example/shared/inbox"
 			}
 			sc := &Scenario{Name: c.String(), Kind: ap.Both, Entry: c.entry, URL: outbox(Alice), Body: c.body(),
 				Tweak: func(a *ap.App) { g.install(a); a.MaxDeliverDepth = c.limit }}
